@@ -179,7 +179,8 @@ func sameHR(a, b pc.HashRange) bool {
 func chooseMutation(rng *rand.Rand, w *world, g gateDef, cs *caseSpec) {
 	n, h, i := w.n, w.height, cs.I
 	root, sorted := pc.GenerateRoot(h, append([]pc.Proof{}, w.input[:n]...))
-	mp, _ := pc.GenerateProofs(h, append([]pc.Proof{}, sorted...), i)
+	mp, _ := pc.GenerateProofs(h, append([]pc.Proof{}, w.input[:n]...), i) // independent copy in arrival order
+	_ = sorted
 	L := len(mp.HashRanges)
 	P := 1 << uint(L)
 	otherLeaf := func() int {
